@@ -354,6 +354,44 @@ def identity_kwargs_cases(ctx):
                      % (r['stream'], r['plain']), case)
 
 
+def _line_f(line, **kw):
+    return ('line', line, tuple(kw.items()))
+
+
+def _io_run(nworkers, kind, text, kw):
+    import io
+    from generatorpipeline import pipeline
+    mk = (lambda: io.StringIO(text)) if kind == 'StringIO' else (lambda: io.BytesIO(text.encode()))
+    want = [_line_f(line, **kw) for line in mk()]
+    st = pipeline(nworkers)(_line_f)
+    src = mk()
+    stream = st(src, **kw)
+    lazy = src.tell() == 0
+    import collections.abc
+    is_stream = isinstance(stream, collections.abc.Iterator)
+    got = list(stream) if is_stream else repr(stream)[:80]
+    return dict(want=want, got=got, lazy=lazy, is_stream=is_stream)
+
+
+def io_source_cases(ctx):
+    """an open file, a StringIO, a BytesIO are iterators (of lines): called with one, a stage returns the stream of f(line), like for any
+    other iterator"""
+    rng = ctx.rng
+    for kind in ('StringIO', 'BytesIO'):
+        for nworkers in (0, rng.choice([1, 2])):
+            text = ''.join('row %d\n' % i for i in range(rng.choice([1, 3, 5])))
+            kw = rng.choice([{}, {'sep': ','}])
+            case = dict(io_source=kind, nworkers=nworkers, lines=text.count('\n'), kwargs={k: repr(v) for k, v in kw.items()})
+            ctx.case(('io-source', kind, nworkers, text, sorted(kw)), True, sample=case)
+            ctx.count('io_sources')
+            st, r = pipelib.isolated(_io_run, (nworkers, kind, text, kw), timeout=60)
+            if st != 'ok':
+                ctx.fail('io-source-run-fails', 'a stage called with an io.%s: %s %s' % (kind, st, str(r)[-300:]), case)
+            elif not r['is_stream'] or r['got'] != r['want'] or not r['lazy']:
+                ctx.fail('io-source-not-a-stream', 'a stage called with an io.%s (an iterator of lines) returned %s (read something at creation: %s); '
+                         'f over the lines gives %s' % (kind, r['got'], not r['lazy'], r['want']), case)
+
+
 def kwargs_streams(ctx):
     rng = ctx.rng
     cases = []
@@ -447,6 +485,7 @@ def check(ctx):
     signature_cases(ctx)
     startmethod_kwargs_cases(ctx)
     identity_kwargs_cases(ctx)
+    io_source_cases(ctx)
 
 
 def replay(ctx, data):
@@ -459,6 +498,8 @@ def replay(ctx, data):
         startmethod_kwargs_cases(ctx)
     elif case.get('identity_kwargs'):
         identity_kwargs_cases(ctx)
+    elif case.get('io_source'):
+        io_source_cases(ctx)
     elif 'arg_kind' in case:
         element_cases(ctx)
     else:
